@@ -464,6 +464,18 @@ def x7_shims(text, log):
         return "vx_join_semi(%s, %s)" % (m.group(1), m.group(2))
     text = re.sub(r"\bformat!\(\"\{\};\{\}\", ((?:[a-z_][a-z0-9_]*\.into\(\))|(?:vx_into_string\([a-z_][a-z0-9_]*\))), ([a-z_][a-z0-9_]*)\)", joinsemi, text)
 
+    def anypk(m):
+        log.add("X7:vx_any_primary_key")
+        return "vx_any_primary_key(&%s)" % m.group(1)
+    text = re.sub(r"\b(columns)\.iter\(\)\.any\(Column::is_primary_key\)", anypk, text)
+
+    # a local `HashSet<&str>` of names: new / contains / insert through a model of string sets
+    for hs in re.findall(r"let mut ([a-z_][a-z0-9_]*) = HashSet::<&str>::new\(\);", text):
+        log.add("X7:vx_strset(new/contains/insert)")
+        text = re.sub(r"let mut %s = HashSet::<&str>::new\(\);" % hs, "let mut %s = vx_strset_new();" % hs, text)
+        text = re.sub(r"\b%s\.contains\(([a-z_][a-z0-9_]*)\)" % hs, r"vx_strset_contains(&%s, \1)" % hs, text)
+        text = re.sub(r"\b%s\.insert\(([a-z_][a-z0-9_]*)\)" % hs, r"vx_strset_insert(&mut %s, \1)" % hs, text)
+
     def uubr(m):
         log.add("X7:vx_uuid_braced")
         return "vx_uuid_braced(&%s)" % m.group(1)
@@ -895,6 +907,7 @@ class FnSpec:
         self.afterstmt = []
         self.loopends = {}
         self.shape = []
+        self.cut = None
         self.opts = []
         self.bodystart = []
         self.bodyend = []
@@ -955,6 +968,13 @@ def parse_template(tpath):
                 # a snippet the body must contain for the in-body proof script to apply
                 m = re.match(r"`(.*)`$", d[6:].strip())
                 cur_fn.shape.append(m.group(1).replace("\\n", "\n"))
+                cur_block = None
+            elif d.startswith("cut "):
+                # X14: the body is extracted up to (excluding) the statement that starts with the
+                # first snippet; the rest of the body is replaced by the second snippet (a call of an
+                # unconstrained continuation declared in the template)
+                m = re.match(r"`(.*)`\s+`(.*)`$", d[4:].strip())
+                cur_fn.cut = (m.group(1).replace("\\n", "\n"), m.group(2))
                 cur_block = None
             elif d.startswith("loopend "):
                 # before the closing brace of the body of the n-th loop
@@ -1158,6 +1178,21 @@ class Extractor:
         if b < 0:
             raise AnchorLost("%s: fn without body" % ident)
         bend = match_brace(masked, b)
+        if fs.cut:
+            k = text.find(fs.cut[0], b)
+            if k < 0 or k > bend:
+                raise AnchorLost("%s: cut point `%s` not found" % (ident, fs.cut[0]))
+            # the cut point must be a statement of the function body itself (nesting depth 1)
+            depth = 0
+            for ch in masked[b:k]:
+                depth += (ch in "([{") - (ch in ")]}")
+            if depth != 1:
+                raise AnchorLost("%s: cut point `%s` is not a top-level statement of the body" % (ident, fs.cut[0]))
+            dropped = text[k:bend]
+            text = text[:k] + fs.cut[1] + _nl(dropped) + text[bend:]
+            masked = mask_source(text)
+            bend = match_brace(masked, b)
+            self.log.setdefault(ident, set()).add("X14:cut(the body from `%s` on -- %d lines -- is replaced by the unconstrained continuation `%s`)" % (fs.cut[0], dropped.count("\n") + 1, fs.cut[1]))
         sig = text[:b]
         sig_masked = masked[:b]
         body = text[b:bend + 1]
